@@ -464,6 +464,9 @@ class Path:
             return Opaque(f'{name}:any')
         if k == 'str':
             return Opaque(f'{name}:str')
+        if k == 'numstr':
+            from .strings import SymStr
+            return SymStr(None, name)
         raise Unsupported(f'fresh value of type {typ}')
 
     # ------------------------------------------------------------- globals
@@ -827,6 +830,11 @@ class Path:
             return True
         if isinstance(v, SymFloat):
             raise Unsupported('truthiness of symbolic float')
+        if type(v).__name__ == 'SymStr':
+            from . import strings
+            return strings.truthy(self, v)
+        if type(v).__name__ in ('MatchV', 'RegexV'):
+            return True
         raise Unsupported(f'truthiness of {v!r}')
 
     def binop(self, op, a, b, node=None):
@@ -892,7 +900,38 @@ class Path:
             if self.branch(y == 0, 'div0'):
                 raise SymRaise(mk_exc('ZeroDivisionError'))
             return simp(x / y)
+        if op is ast.Pow:
+            return self.real_pow(a, b)
         raise Unsupported(f'real binop {op.__name__}')
+
+    def real_pow(self, a, e):
+        """Fraction(int) ** int, exactly as fractions.Fraction.__pow__: b^e for e >= 0, 1/b^-e for e < 0
+        (ZeroDivisionError when b == 0).  Only integer-valued bases are modelled."""
+        if not is_intlike(e):
+            raise Unsupported('Fraction ** non-int')
+        if isinstance(a, Fraction):
+            if a.denominator != 1:
+                raise Unsupported('non-integer Fraction base of **')
+            bi = a.numerator
+        elif is_z3(a) and z3.is_to_real(a):
+            bi = a.arg(0)
+        else:
+            raise Unsupported(f'** on real base {a!r}')
+        e_ = as_int(e)
+        if isinstance(e_, int) and isinstance(bi, int):
+            return Fraction(bi) ** e_
+        ez = as_z3int(e_)
+
+        def ip(k):
+            if isinstance(bi, int) and bi == 2:
+                return theory.pow2(k)
+            return theory.ipow(as_z3int(bi), k)
+        if self.branch(simp(ez < 0), 'pow<0'):
+            if not isinstance(bi, int) or bi == 0:
+                if self.branch(simp(as_z3int(bi) == 0), 'pow base==0'):
+                    raise SymRaise(mk_exc('ZeroDivisionError'))
+            return simp(1 / z3.ToReal(ip(simp(-ez))))
+        return z3.ToReal(ip(ez))
 
     def binop_int(self, op, a, b):
         T = self.ex.tags
@@ -1151,6 +1190,9 @@ class Path:
     def equal(self, a, b):
         if a is None or b is None:
             return a is None and b is None
+        if type(a).__name__ == 'SymStr' or type(b).__name__ == 'SymStr':
+            from . import strings
+            return strings.equal(self, a, b) if type(a).__name__ == 'SymStr' else strings.equal(self, b, a)
         if isinstance(a, SObj) or isinstance(b, SObj):
             NI = ExtV('builtins.NotImplemented')
             if isinstance(a, SObj):
@@ -1223,6 +1265,9 @@ class Path:
         return False
 
     def contains(self, container, item):
+        if type(container).__name__ == 'SymStr':
+            from . import strings
+            return strings.contains(self, container, item)
         if isinstance(container, (tuple, list)):
             rs = [self.equal(x, item) for x in container]
             if any(r is True for r in rs):
@@ -1349,6 +1394,10 @@ class Path:
                 return v.args
         if isinstance(v, Opaque):
             return Opaque(f'{v.tag}.{attr}')
+        if type(v).__name__ == 'SymStr':
+            return BoundBuiltin(f'symstr.{attr}', v)
+        if type(v).__name__ == 'MatchV':
+            return BoundBuiltin(f'match.{attr}', v)
         raise Unsupported(f'attribute {attr} of {v!r}')
 
     def class_attr(self, ci: ClassInfo, attr: str, expr):
